@@ -136,6 +136,19 @@ def gen_sel_lib(rng, n=None, bands=False, multiband=False, all_allowed=False):
             e['f_min'], e['f_max'] = float(b[0]), float(b[1])
             e['allowed_for_design'] = rng.random() < 0.5
             ls.append(e)
+        if rng.random() < 0.35:
+            # a WIDE, quiet lower-band member: covers the L design bands completely and reaches over the lower edge of the
+            # C design bands without covering them -> must never be chosen for the C band
+            wide = ls[rng.randrange(len(ls))]
+            wide.update(
+                {'type_def': 'fixed_gain', 'nf0': rng.choice([2.5, 3.0, 4.0]), 'gain_min': rng.choice([3, 5, 8]),
+                 'gain_flatmax': rng.choice([28, 32]), 'p_max': 23})
+            # (its centre frequency stays inside the 187-189 THz window by which gnpy names the L band)
+            wf = rng.choice([(186_500_000_000_000, 191_500_000_000_000), (186_000_000_000_000, 192_000_000_000_000),
+                             (185_500_000_000_000, 192_500_000_000_000)])
+            wide['f_min'], wide['f_max'] = float(wf[0]), float(wf[1])
+            for k_ in ('nf_min', 'nf_max', 'out_voa_auto'):
+                wide.pop(k_, None)
         entries += cs + ls
         seen = []   # two multiband entries never list the same member set (ambiguous library, out of scope)
         for j in range(rng.choice([1, 2, 3, 4])):
@@ -1122,10 +1135,17 @@ def run_mtopo(case, drv):
             if not set(picks) <= set(eq['Edfa'][tv].multi_band):
                 res.fail(f'permitted set: {uid}: per-band models {picks} are not the members of its type {tv}')
             dbands = rmap[uid]['bands'] if uid in rmap else case['bands']
-            for a in node.amplifiers.values():
+            dname = {find_band_name(FrequencyBand(f_min=float(db[0]), f_max=float(db[1]))): db for db in dbands}
+            for bname, a in node.amplifiers.items():
                 b = a.params.bands[0]
-                if not any(b['f_min'] <= db[0] and b['f_max'] >= db[1] for db in dbands):
-                    res.fail(f'band cover: {uid}: model {a.params.type_variety} covers none of the design bands {dbands}')
+                db = dname.get(bname)
+                if db is None:
+                    res.stats['mtopo_band_name_not_among_design_bands'] += 1
+                    if not any(b['f_min'] <= d_[0] and b['f_max'] >= d_[1] for d_ in dbands):
+                        res.fail(f'band cover: {uid}: model {a.params.type_variety} covers none of the design bands {dbands}')
+                elif not (b['f_min'] <= db[0] and b['f_max'] >= db[1]):
+                    res.fail(f'band cover: {uid}: model {a.params.type_variety} chosen for the design band {db} covers only '
+                             f'[{b["f_min"]}, {b["f_max"]}]')
     if err == 'ConfigurationError' and sel_calls:
         # the same open finding, other outcome: every band of the node got its model, but the independent per-band picks
         # are grouped by no multiband entry of the library at all, and the design stops
